@@ -218,8 +218,7 @@ def conforms_def(ct, cls: str, S: Any, v: Any) -> Any:
     if cls == "AnySchema":
         t = P("types")
         j = z3.Int("cj")
-        return z3.Implies(D("types"),
-                          z3.Exists([j], z3.And(0 <= j, j < M.llen(t), conforms(M.lat(t, j), v))))
+        return z3.Implies(D("types"), M.anyok(t, M.llen(t), v))
     if cls == "TypeAliasSchema":
         r = reg_of(S)
         return z3.Implies(M.has(r, S_("type")), conforms(M.dget(r, S_("type")), v))
